@@ -5,7 +5,9 @@ BIN=$(dirname $(readlink -f $0))
 cd /repo || exit 2
 if ! git diff --quiet; then echo "/repo has uncommitted changes"; exit 2; fi
 git apply "$P" || { echo "patch does not apply: $P"; exit 2; }
-trap 'git -C /repo checkout -- . ' EXIT
+# the evidence directory is put back afterwards: evidence must only ever come from the unchanged tree
+EV=/dev/shm/vf-ev-save.$$; cp -a /verif/evidence $EV
+trap 'git -C /repo checkout -- . ; rm -rf /verif/evidence; mv $EV /verif/evidence' EXIT
 if ! (GOFLAGS=-mod=mod GOPROXY=off go build ./... 2>/dev/null); then echo "DOES-NOT-COMPILE $P"; exit 3; fi
 if [ -n "${VF_MUT_SUITE:-}" ]; then
   GOFLAGS=-mod=mod GOPROXY=off go test -vet=off -count=1 . >/dev/null 2>&1 || { echo "EXISTING-TESTS-FAIL $P"; exit 4; }
